@@ -721,4 +721,108 @@ example : mayCommand .drift busy busy = true ∧ mayCommand .single busy busy = 
     mayCommand .drift busy (LateDeletion.mark.apply busy) = false ∧
     (stateNode busy).isSome = true ∧ deleting (LateDeletion.claimTerminating.apply busy) = true := by decide
 
+
+/-! ## The callers of the marks and nominations: Results.Record and the orchestration queue (c07.commands) -/
+
+/-- the two writers of the in-memory protections, as the source has them now: `Results.Record` nominates (one call)
+    and no `return` of it precedes that call — an early exit ("nothing to report") cannot skip the nominations, the
+    model's `.record` nominates whatever the rest of the result looks like; `Queue.StartCommand` marks;
+    `Queue.CompleteCommand` releases the candidates only under the guard `!cmd.Succeeded` — the model's `.queue`
+    unmarks for a failed command only. -/
+theorem fact_protection_writers :
+    CandidateFacts.recordNominateCalls = 1 ∧ CandidateFacts.recordReturnsBeforeNominate = 0 ∧
+    CandidateFacts.startCommandMarks = 1 ∧
+    CandidateFacts.completeCommandUnmarkGuards = ["!cmd.Succeeded"] := by decide
+
+/-- **C07_commands_refine** — every command-level event (a recorded scheduling result, StartCommand, a run of the
+    queue on the command, an informer delivery) is exactly the list of writes `lower` gives: the histories of
+    commands are histories in the sense of `C07_history`. -/
+theorem C07_commands_refine (env : World) (st : QState) (e : QEv) :
+    (qstep env st e).h = hrun env.batchMax env.pool st.h (lower env st e) := qstep_h env st e
+
+/-- **C07_commands_history** — for every history of recorded scheduling results, commands, queue runs (succeeding,
+    requeued, failing), informer deliveries and the events of `C07_history`, and every method: if the method selects
+    the node afterwards then no command naming the node is in the queue and the node the LOG of the corresponding
+    writes describes is not protected (last mark/unmark record is not a mark, no nomination younger than the window,
+    …).  (`env.inQueue` is not used: the queue is part of the state.) -/
+theorem C07_commands_history (env : World) (es : List QEv) (t0 : Int) (m : Method) (henv : env.inQueue = false)
+    (hwf : wellFormed ((specRun env.pool { now := t0 }
+      (lowerRun env { h := { now := t0, sn := none } } es)).world env) = true)
+    (h : qselected env (qrun env { h := { now := t0, sn := none } } es) m = true) :
+    (qrun env { h := { now := t0, sn := none } } es).inQueue = false ∧
+    allowedAfter env (specRun env.pool { now := t0 } (lowerRun env { h := { now := t0, sn := none } } es)) m = true := by
+  constructor
+  · cases hq : (qrun env { h := { now := t0, sn := none } } es).inQueue with
+    | false => rfl
+    | true => rw [queued_not_selected env _ m hq] at h; cases h
+  · apply C07_history env _ t0 m hwf
+    have := qselected_hselected env _ m henv h
+    rw [qrun_h] at this
+    exact this
+
+/-- **C07_command_protects** — "already deleting" at the level where it is decided: once the queue has accepted a
+    command for the node (`StartCommand`), NO method selects the node after ANY continuation that contains no failing
+    command, no raw unmark and no removal of the objects — while the command is queued, after it was requeued, after
+    it was carried out (`.queue .none`: the NodeClaim is deleted through the API and the cluster state has NOT seen
+    the deletionTimestamp), before and after the informer delivers it, whatever scheduling results are recorded and
+    however far the clock advances. -/
+theorem C07_command_protects (env : World) (st : QState) (m m' : Method) (es : List QEv)
+    (hacc : startAccepted env st m = true) (hk : ∀ e ∈ es, qkeepsMark e = true) :
+    qselected env (qrun env (qstep env st (.start m)) es) m' = false := by
+  apply qmarked_not_selected
+  apply qrun_keeps_mark env es _ hk
+  rw [qstep_h]
+  have hsel : qselected env st m = true := by
+    unfold startAccepted at hacc; simp only [Bool.and_eq_true] at hacc; exact hacc.2
+  simp only [lower, hacc, if_true, hrun, hstep]
+  unfold qselected hselected at hsel
+  unfold hmarked
+  cases hs : st.h.sn with
+  | none => simp [hs] at hsel
+  | some s => simp
+
+/-- **C07_completed_command_stays_protected** — the instance that matters most: right after the queue carried the
+    command out, the node is out of the queue, its API copy is deleting, the cluster state's copy is not — and no
+    method selects it. -/
+theorem C07_completed_command_stays_protected (env : World) (st : QState) (m m' : Method)
+    (hacc : startAccepted env st m = true) :
+    let st' := qstep env (qstep env st (.start m)) (.queue .none)
+    st'.inQueue = false ∧ st'.apiDeleting = true ∧ qselected env st' m' = false := by
+  have hsel := C07_command_protects env st m m' [.queue .none] hacc (by intro e he; simp at he; subst he; rfl)
+  refine ⟨?_, ?_, hsel⟩
+  · simp [qstep, hacc]
+  · simp [qstep, hacc]
+
+/-- **C07_record_nominates** — "recently nominated for pending pods" at the level where it is decided: after a
+    recorded scheduling result that places at least one real pending pod on the node — whatever else the result
+    contains: virtual buffer pods, new NodeClaims with or without pods, or NO new NodeClaim at all — no method selects
+    the node before the nomination window has passed. -/
+theorem C07_record_nominates (env : World) (st : QState) (real virt newPods d : Nat) (m : Method)
+    (hr : 0 < real) (hd : (d : Int) < nominationWindow env.batchMax) :
+    qselected env (qstep env (qstep env st (.record real virt newPods)) (.base (.tick d))) m = false := by
+  unfold qselected hselected
+  rw [qstep_h]
+  simp only [lower, hrun, hstep]
+  simp only [qstep, lower, hr, if_true, hrun, hstep]
+  cases hs : st.h.sn with
+  | none => simp
+  | some s =>
+    have hlt : st.h.now + (d : Int) < st.h.now + nominationWindow env.batchMax := by omega
+    simp [selectedOn, newCandidateOn, StateNode.validateNode, StateNode.nominated, envAt, qenv, hlt]
+
+-- … a recorded result nominates (existing nodes only: no new NodeClaim), a carried-out command keeps protecting
+def cmdStart : QState := qrun busy { h := { now := 0, sn := none } } [.base (.claim (some okClaim)), .base (.node (some okNode))]
+example : startAccepted busy cmdStart .drift = true ∧
+    qselected busy (qstep busy cmdStart (.record 1 0 0)) .drift = false ∧
+    qselected busy (qstep busy cmdStart (.record 0 1 2)) .drift = true ∧
+    qselected busy (qrun busy cmdStart [.record 1 0 0, .base (.tick 19999999999)]) .drift = false ∧
+    qselected busy (qrun busy cmdStart [.record 1 0 0, .base (.tick 20000000000)]) .drift = true ∧
+    qselected busy (qrun busy cmdStart [.start .drift, .queue .none]) .drift = false ∧
+    qselected busy (qrun busy cmdStart [.start .drift, .queue .none, .sync, .base .podEvent]) .drift = false ∧
+    qselected busy (qrun busy cmdStart [.start .drift, .queue .deleteError]) .drift = false ∧
+    qselected busy (qrun busy cmdStart [.start .drift, .queue .replacementLost]) .drift = true := by decide
+example : wellFormed ((specRun busy.pool { now := 0 } (lowerRun busy { h := { now := 0, sn := none } }
+      [.base (.claim (some okClaim)), .base (.node (some okNode)), .start .drift, .queue .replacementLost])).world busy) = true ∧
+    busy.inQueue = false := by decide
+
 end Karp.C07
